@@ -634,7 +634,7 @@ func (c *Configuration) AddOrUpdateGlobalConfiguration(gc *conf_v1.GlobalConfigu
 	changes = append(changes, hostChanges...)
 	problems = append(problems, hostProblems...)
 
-	return changes, problems, validationErr
+	return orderDeletesFirst(changes), problems, validationErr
 }
 
 // DeleteGlobalConfiguration deletes GlobalConfiguration.
@@ -655,7 +655,7 @@ func (c *Configuration) DeleteGlobalConfiguration() ([]ResourceChange, []Configu
 	changes = append(changes, hostChanges...)
 	problems = append(problems, hostProblems...)
 
-	return changes, problems
+	return orderDeletesFirst(changes), problems
 }
 
 // GetGlobalConfiguration returns the current GlobalConfiguration.
@@ -692,6 +692,7 @@ func (c *Configuration) AddOrUpdateTransportServer(ts *conf_v1.TransportServer) 
 
 		changes = append(changes, hostChanges...)
 		problems = append(problems, hostProblems...)
+		changes = orderDeletesFirst(changes)
 	}
 
 	if validationErr != nil {
@@ -743,9 +744,29 @@ func (c *Configuration) DeleteTransportServer(key string) ([]ResourceChange, []C
 
 		changes = append(changes, hostChanges...)
 		problems = append(problems, hostProblems...)
+		changes = orderDeletesFirst(changes)
 	}
 
 	return changes, problems
+}
+
+// orderDeletesFirst moves every delete change before every addOrUpdate change, keeping the relative order
+// within each group. It is needed where the changes of listeners and hosts are concatenated: a TransportServer
+// that moves between a TLS Passthrough host and a TCP/UDP listener gets an addOrUpdate from one rebuild and a
+// delete from the other, and processing the delete last would remove the configuration of an active resource.
+func orderDeletesFirst(changes []ResourceChange) []ResourceChange {
+	var deletes []ResourceChange
+	var updates []ResourceChange
+
+	for _, c := range changes {
+		if c.Op == Delete {
+			deletes = append(deletes, c)
+		} else {
+			updates = append(updates, c)
+		}
+	}
+
+	return append(deletes, updates...)
 }
 
 func (c *Configuration) rebuildListenerHosts() ([]ResourceChange, []ConfigurationProblem) {
